@@ -6,6 +6,7 @@ verus! {
 //@include prelude/core.rs
 //@include prelude/fjall_types.rs
 //@include prelude/replay.rs
+//@include prelude/replay_clear_active.rs
 //@include prelude/paths.rs
 //@pure get
 //@world snapshot_tracker.set meta_keyspace.get_highest_seqno tree.insert tree.remove tree.remove_weak tree.clear keyspaces.get meta_keyspace.get_highest_seqno tree.get_highest_seqno seqno.fetch_max seqno.get keyspace_id_counter.fetch_max
@@ -57,7 +58,7 @@ verus! {
                     decreases bv.cleared.len() - __fjx_n2,
 //@proof before @loop-start 2
                     proof { assert(*keyspace_id == bv.cleared[__fjx_n2 - 1]); }
-//@proof before keyspace.tree.clear(
+//@proof at-call keyspace.tree.clear(
                     // P-CLEAR (C04): a replayed clear drops every layer of the tree, so nothing in its tables may be newer than the clear
                     proof { assert(level_ok(w.trees[keyspace.tree.id@], batch.seqno)); } // [C04:P-CLEAR]
 //@proof before shim_slice_end
